@@ -110,6 +110,38 @@ def table(src_root):
     return out
 
 
+STORE_VISITORS = ("visit_Assign", "visit_AssignBlock")
+
+
+def store_guards(src_root):
+    """for every visitor that emits an assignment to node.target (which may be an attribute-style NSRef, compiled to a
+    subscript store): does it write the `if not isinstance(<ref>, Namespace): raise` guard BEFORE visiting the target?"""
+    path = os.path.join(src_root, "jinja2", "compiler.py")
+    tree = ast.parse(open(path, encoding="utf-8").read(), path)
+    cls = [n for n in tree.body if isinstance(n, ast.ClassDef) and n.name == "CodeGenerator"][0]
+    funcs = {n.name: n for n in cls.body if isinstance(n, ast.FunctionDef)}
+    # every visitor that visits node.target must be one of the known ones
+    out = []
+    for name, fn in funcs.items():
+        visits = [n for n in ast.walk(fn) if isinstance(n, ast.Call) and isinstance(n.func, ast.Attribute) and n.func.attr == "visit"
+                  and n.args and ast.unparse(n.args[0]) == "node.target"]
+        if not visits:
+            continue
+        if name in ("visit_For", "visit_AsyncFor"):
+            continue          # loop targets: parse_assign_target(extra_end_rules=..., name_only / tuple) never yields NSRef
+        first_visit = min(v.lineno for v in visits)
+        guard_lines = [n.lineno for n in ast.walk(fn) if isinstance(n, ast.Call) and isinstance(n.func, ast.Attribute)
+                       and n.func.attr == "writeline" and n.args and "isinstance(" in ast.unparse(n.args[0])
+                       and "Namespace" in ast.unparse(n.args[0])]
+        raises = [n.lineno for n in ast.walk(fn) if isinstance(n, ast.Call) and isinstance(n.func, ast.Attribute)
+                  and n.func.attr == "writeline" and n.args and "raise TemplateRuntimeError" in ast.unparse(n.args[0])]
+        ok = bool(guard_lines) and bool(raises) and min(guard_lines) < first_visit and min(raises) < first_visit
+        out.append((name, ok))
+    if not out:
+        raise Untranslatable("no visitor assigns to node.target")
+    return out
+
+
 def q(s):
     if any(ord(c) > 126 or ord(c) < 32 for c in s):
         raise Untranslatable(f"non-ASCII text {s!r}")
@@ -146,11 +178,18 @@ Theorem visit_Getitem_routes : table_ok gen_visit_Getitem route_getitem = true.
 Proof. vm_compute. reflexivity. Qed.
 Theorem visit_Call_routes : table_ok gen_visit_Call (fun m _ => route_call m) = true.
 Proof. vm_compute. reflexivity. Qed.
+
+(* every visitor that emits an assignment to node.target (possibly an attribute-style target, compiled to a subscript
+   store on a template value) writes the "is a Namespace object" guard before the target *)
+Definition gen_store_guards : list (string * bool) := [%(guards)s].
+Theorem assignment_targets_guarded : forallb snd gen_store_guards = true /\ gen_store_guards <> [].
+Proof. split; [vm_compute; reflexivity|discriminate]. Qed.
 '''
 
 
 def emit(src_root):
-    return COQ % {"root": src_root, "table": to_coq(table(src_root))}
+    guards = "; ".join(f"({q(n)}, {b(ok)})" for n, ok in store_guards(src_root))
+    return COQ % {"root": src_root, "table": to_coq(table(src_root)), "guards": guards}
 
 
 if __name__ == "__main__":
